@@ -170,6 +170,13 @@ func c06LastElement(r *verdict.Run) {
 		{"LPOP-count", [][]string{{"RPUSH", "k", "a", "b"}}, []string{"LPOP", "k", "5"}, "k"},
 		{"RPOP-count", [][]string{{"RPUSH", "k", "a", "b"}}, []string{"RPOP", "k", "2"}, "k"},
 		{"LREM", [][]string{{"RPUSH", "k", "a", "a"}}, []string{"LREM", "k", "0", "a"}, "k"},
+		{"LREM-exact-count", [][]string{{"RPUSH", "k", "a", "a"}}, []string{"LREM", "k", "2", "a"}, "k"},
+		{"LREM-count-above-occurrences", [][]string{{"RPUSH", "k", "a", "a"}}, []string{"LREM", "k", "5", "a"}, "k"},
+		{"LREM-negative-count-above-occurrences", [][]string{{"RPUSH", "k", "a"}}, []string{"LREM", "k", "-3", "a"}, "k"},
+		{"LPOP-exact-count", [][]string{{"RPUSH", "k", "a", "b"}}, []string{"LPOP", "k", "2"}, "k"},
+		{"LMPOP-exact-count", [][]string{{"RPUSH", "k", "a", "b"}}, []string{"LMPOP", "1", "k", "RIGHT", "COUNT", "2"}, "k"},
+		{"HDEL-repeated-field", [][]string{{"HSET", "k", "f", "v"}}, []string{"HDEL", "k", "f", "f"}, "k"},
+		{"SREM-repeated-member", [][]string{{"SADD", "k", "a"}}, []string{"SREM", "k", "a", "a", "zz"}, "k"},
 		{"LTRIM-empty-range", [][]string{{"RPUSH", "k", "a", "b"}}, []string{"LTRIM", "k", "5", "9"}, "k"},
 		{"LTRIM-reversed", [][]string{{"RPUSH", "k", "a", "b"}}, []string{"LTRIM", "k", "1", "0"}, "k"},
 		{"LMOVE-source", [][]string{{"RPUSH", "k", "a"}}, []string{"LMOVE", "k", "d", "LEFT", "LEFT"}, "k"},
